@@ -625,6 +625,9 @@ type FuncContract struct {
 	NoInline bool
 	File     string
 	Trusted  bool // in-repo function whose contract is assumed, body not verified
+	MayPanic bool
+	DecrAssumed bool
+	ExactConv bool
 	FuncType bool // contract on every value of a named function type (calls through such values)
 	Pure     bool
 }
@@ -695,7 +698,7 @@ func ParseFile(path, text string, goFile bool) (*File, error) {
 	}
 	// group lines into logical clauses: a clause starts with a keyword at the
 	// beginning of the (trimmed) line; other lines continue the previous one.
-	kw := []string{"package", "import", "sort", "pure", "ghost", "lemma", "axiom", "func", "extern", "requires", "ensures", "assigns", "loop", "invariant", "decreases", "use", "inline", "noinline", "trusted", "opaque", "trigger", "invokes", "assumes", "defines", "repeats", "stream", "implements", "given", "cbgiven", "retgiven"}
+	kw := []string{"package", "import", "sort", "pure", "ghost", "lemma", "axiom", "func", "extern", "requires", "ensures", "assigns", "loop", "invariant", "decreases", "use", "inline", "noinline", "trusted", "opaque", "trigger", "invokes", "assumes", "defines", "repeats", "stream", "implements", "given", "cbgiven", "retgiven", "maypanic", "exactconv"}
 	var clauses []string
 	for _, ln := range lines {
 		t := strings.TrimSpace(ln)
@@ -895,6 +898,11 @@ func ParseFile(path, text string, goFile bool) (*File, error) {
 				return nil, fail(fmt.Errorf("unexpected loop clause"))
 			}
 		case "decreases":
+			if strings.TrimSpace(rest) == "_" && curF != nil && curLoop == nil {
+				// termination assumed, not proved (reported among the assumptions)
+				curF.DecrAssumed = true
+				break
+			}
 			es, err := parseExprList(rest)
 			if err != nil {
 				return nil, fail(err)
@@ -940,6 +948,16 @@ func ParseFile(path, text string, goFile bool) (*File, error) {
 		case "noinline":
 			if curF != nil {
 				curF.NoInline = true
+			}
+		case "maypanic":
+			// panicking is part of this function's interface (its callers recover): no "unreachable" obligations for its panic sites
+			if curF != nil {
+				curF.MayPanic = true
+			}
+		case "exactconv":
+			// every integer conversion in this function must preserve the mathematical value
+			if curF != nil {
+				curF.ExactConv = true
 			}
 		case "trusted":
 			if curF != nil {
